@@ -153,6 +153,13 @@ RenamedAwayCannotLogin ==
    change nothing *)
 ReadOnlySteps == [][LastStep.op \in {"getuser", "list", "login", "restart"} => mem' = mem]_mcvars
 
+(* every sequential step that is a request of the concurrent-round kind satisfies the round facts (a round of one) *)
+ReqOf(s) == [kind |-> s.op, login |-> s.login, name |-> IF "name" \in DOMAIN s THEN s.name ELSE <<>>,
+             pw |-> IF "pw" \in DOMAIN s THEN s.pw ELSE Absent, acc |-> IF "acc" \in DOMAIN s THEN s.acc ELSE {}]
+RoundOfOne ==
+  [][LET s == LastStep IN
+     (s.op \in {"newuser", "setuser", "deluser"} /\ IsReq(ReqOf(s))) => RoundFacts(mem, <<ReqOf(s)>>, mem') = {}]_mcvars
+
 (* non-vacuity witnesses: these must be VIOLATED when checked as invariants (see the python module) *)
 NeverThreeAccounts == Cardinality(DOMAIN mem) < NL + 1
 NeverRenamed == ~(Len(hist) > 0 /\ hist[Len(hist)].op = "update" /\ \E i \in DOMAIN hist[Len(hist)].subs :
